@@ -64,8 +64,9 @@ def vel(s):
 # ---------------------------------------------------------------------------------------
 # ghost images
 
-def images(cfg, t):
-    """List of (shift xyz, vshift xyz, ambiguous_flag) for particle 1, innermost ring only.
+def images(cfg, t, full=False):
+    """List of (shift xyz, vshift xyz, ambiguous_flag) for particle 1; innermost ring only (collision searches),
+    or all N_ghost rings with full=True (gravity).
 
     cfg: {"boundary": none|open|periodic|shear, "L": [Lx,Ly,Lz], "nghost": [gx,gy,gz], "omega": float}
     """
@@ -73,7 +74,7 @@ def images(cfg, t):
     if b in ("none", "open") or cfg.get("L") is None:
         return [(np.zeros(3), np.zeros(3), False)]
     Lx, Ly, Lz = cfg["L"]
-    g = [min(int(n), 1) for n in cfg["nghost"]]
+    g = [int(n) if full else min(int(n), 1) for n in cfg["nghost"]]
     out = []
     for i in range(-g[0], g[0] + 1):
         for j in range(-g[1], g[1] + 1):
